@@ -11,8 +11,10 @@ import WtfModel.Gen.Validate
 
   * `decode1` / `decodeNat` / `decodeGo` : that decoder (Go's `first` / `acceptRanges` tables written as
     range tests).  Bytes are handled as naturals; `decodeGo` converts from `UInt8`.
-  * `encodeNat` : `utf8.AppendRune` (what `strings.Map` writes for every rune it keeps; an invalid byte
-    reaches it as U+FFFD and therefore becomes the three bytes EF BF BD).
+  * `encodeNat` : `utf8.AppendRune`.  The sanitising loop of `ValidateQuery` copies the bytes of every
+    well-formed rune it keeps (`b.WriteString(query[i : i+size])`), which are `encodeNat` of its code point
+    (`Wtf.Validate.decode1_spec`); an invalid byte is written as the single ASCII byte
+    `Gen.Validate.invalidRepl` (`'?'`), see `Rune.out`.
   * `isSpace`, `isControl` : `unicode.IsSpace`, `unicode.IsControl`.  The two range tables below are
     compared with the Go toolchain over all 0x110000 code points on every run of the check
     (correspondence stream `validate-unicode-tables`).
@@ -20,12 +22,19 @@ import WtfModel.Gen.Validate
     (`strings.TrimSpace(query) == ""`), byte-length test on the raw input, control strip, metacharacter
     test on the stripped text, `TrimSpace`, `Fields` + `Join`, empty test.
 
-  After the control strip the text is well-formed UTF-8, so the model keeps it as a list of code points;
+  After the control strip the text is well-formed UTF-8 (invalid bytes have been replaced), so the model
+  keeps it as a list of code points;
   Go re-decodes it in `regexp`, `TrimSpace` and `Fields`, and `Wtf.Validate.decode_encode`
   (Proofs/ValidateUtf8.lean) proves that re-decoding the encoded text gives exactly these code points.
 
   Constants: `MaxQueryLength`, `DefaultSearchLimit` from `Gen.Constants`; `maxLimit`, the metacharacter
-  class and the exempted control characters from `Gen.Validate` (regenerated from the source on every run).
+  class, the exempted control characters and the replacement byte for invalid bytes from `Gen.Validate`
+  (regenerated from the source on every run).
+
+  History: until the repair of finding K01 the strip was `strings.Map`, which wrote U+FFFD (three bytes) for
+  every invalid byte, so an accepted query could come back longer than `MaxQueryLength`.  Copying the invalid
+  byte unchanged instead is not an option: the bytes around a removed control character can then join into a
+  new character (`C2 01 80` ↦ U+0080, a control character; `C2 01 A0` ↦ U+00A0, white space).
 -/
 namespace Wtf.Validate
 
@@ -69,6 +78,12 @@ def Rune.val : Rune → Nat
 def Rune.isBad : Rune → Bool
   | .cp _ => false
   | .bad _ => true
+
+/-- what the sanitising loop of `ValidateQuery` writes for a rune it keeps: the rune's own bytes (= the
+    encoding of its code point) if it is well formed, the replacement byte `'?'` for an invalid byte -/
+def Rune.out : Rune → Nat
+  | .cp c => c
+  | .bad _ => Wtf.Gen.Validate.invalidRepl
 
 def isCont (b : Nat) : Prop := 0x80 ≤ b ∧ b ≤ 0xBF
 instance (b : Nat) : Decidable (isCont b) := by unfold isCont; infer_instance
@@ -166,12 +181,19 @@ def maxQueryLength : Nat := Wtf.Gen.Constants.MaxQueryLength.toNat
 /-- `strings.TrimSpace(s) == ""`: every rune is white space (an invalid byte is U+FFFD, not a space) -/
 def blank (rs : List Rune) : Bool := rs.all fun r => !r.isBad && isSpace r.val
 
-/-- the `strings.Map` callback keeps this rune (`-1` is returned for control characters other than the
-    exempted ones) -/
+/-- the sanitising loop keeps a well-formed rune with this code point (control characters other than the
+    exempted ones are skipped) -/
 def kept (c : Nat) : Bool := !(isControl c && !Wtf.Gen.Validate.keptControls.contains c)
 
-/-- `cleaned := strings.Map(…, query)` as code points: invalid bytes arrive as U+FFFD -/
-def stripCtl (rs : List Rune) : List Nat := (rs.map Rune.val).filter kept
+/-- one iteration of the sanitising loop, in the order of its `switch`: an invalid byte
+    (`r == utf8.RuneError && size == 1`) is written as the replacement byte, a control character that is not
+    exempted is skipped, anything else is copied -/
+def stripStep : Rune → Option Nat
+  | .bad _ => some Wtf.Gen.Validate.invalidRepl
+  | .cp c => if kept c then some c else none
+
+/-- `cleaned := b.String()` after the loop, as code points -/
+def stripCtl (rs : List Rune) : List Nat := rs.filterMap stripStep
 
 /-- `strings.TrimSpace` on well-formed text -/
 def trimSpace (cs : List Nat) : List Nat := ((cs.dropWhile isSpace).reverse.dropWhile isSpace).reverse
@@ -233,8 +255,9 @@ def noAdjSpace : List Nat → Prop
 def noEdgeSpace (l : List Nat) : Prop :=
   (∀ x, l.head? = some x → isSpace x = false) ∧ (∀ x, l.getLast? = some x → isSpace x = false)
 
-/-- The input on which a second validation fails (see `Wtf.C14.idem_fails`): 334 invalid bytes.  The check
-    takes it from here (driver op `witness`) and runs it on the real code. -/
+/-- The input on which a second validation failed before the repair of K01 (334 invalid bytes came back as
+    334 × U+FFFD = 1002 bytes).  The check takes it from here (driver op `witness`) and runs it on the real
+    code on every run; see `Wtf.C14.idem_old_witness`. -/
 def idemWitness : Bytes := List.replicate 334 0xFF
 
 /-! ## ValidateLimit -/
